@@ -306,7 +306,7 @@ def run(ctx):
 
     ctx.log("stage 1. values")
     # ------------------------------------------------------------------ 1. values: encode on both sides
-    nval = 300 if q else 12000
+    nval = 250 if q else 1500
     maxdepth = 6 if q else 64
     rc, out = c.run_bin(binp, ["values", ctx.seed, nval, maxdepth], timeout=1200)
     if rc != 0:
@@ -328,7 +328,7 @@ def run(ctx):
         return "(bytes_eqb (encode %s) %s, (value_okb %s, value_sortedb %s), (veqb (norm %s) %s, veqb %s %s))" % (
             V, nlist(cs["hex"]), V, V, V, R, V, R)
     exprs = [val_expr(cs) for cs in cases]
-    terms = c.coq_eval(ctx, "values", PRE, exprs, shard=80 if q else 400)
+    terms = c.coq_eval(ctx, "values", PRE, exprs, shard=40 if q else 100)
     depths = {}
     for cs, t in zip(cases, terms):
         menc, (okb, sortedb), mnorm = t
@@ -368,7 +368,7 @@ def run(ctx):
 
     ctx.log("stage 2. hostile byte streams")
     # ------------------------------------------------------------------ 2. hostile byte streams: decode on both sides
-    nb = 900 if q else 40000
+    nb = 700 if q else 4500
     rc, out = c.run_bin(binp, ["bytes", ctx.seed, nb, maxdepth], timeout=1200)
     if rc != 0:
         last = [l for l in out.splitlines() if l.startswith("{")][-1:]
@@ -387,7 +387,7 @@ def run(ctx):
             if isinstance(cs["pre"], dict) else "match run_prefix %s with Some _ => false | None => true end" % B)
         return "(%s, %s)" % (top, pre)
     exprs = [bytes_expr(cs) for cs in cases]
-    terms = c.coq_eval(ctx, "bytes", PRE, exprs, shard=100 if q else 500)
+    terms = c.coq_eval(ctx, "bytes", PRE, exprs, shard=50 if q else 300)
     acc = rej = 0
     worst = 0.0
     for cs, t in zip(cases, terms):
@@ -440,7 +440,7 @@ def run(ctx):
 
     ctx.log("stage 3. token types")
     # ------------------------------------------------------------------ 3. token types
-    nt = 5 if q else 120
+    nt = 4 if q else 25
     rc, out = c.run_bin(binp, ["typed", ctx.seed, nt], timeout=1200)
     if rc != 0:
         ctx.violation({"layer": "harness run", "mode": "typed", "output": out[-2000:]}, "typed harness crashed", no_input=True)
@@ -454,7 +454,7 @@ def run(ctx):
         else:
             b = nlist(cs["hex"])
             exprs.append("(decode_typed %s Fail %s, decode_typed %s Ignore %s)" % (s, b, s, b))
-    terms = c.coq_eval(ctx, "typed", PRE, exprs, shard=60 if q else 400)
+    terms = c.coq_eval(ctx, "typed", PRE, exprs, shard=40 if q else 150)
     per_type = {}
     for cs, t in zip(cases, terms):
         pt = per_type.setdefault(cs["ty"], {"enc": 0, "dec_ok": 0, "dec_err": 0})
@@ -509,7 +509,7 @@ def run(ctx):
 
     ctx.log("stage 4. events / reject reasons")
     # ------------------------------------------------------------------ 4. events / reject reasons (dispatch on the type string)
-    nd = 56 if q else 2000
+    nd = 56 if q else 400
     rc, out = c.run_bin(binp, ["dispatch", ctx.seed, nd], timeout=600)
     if rc != 0:
         ctx.violation({"layer": "harness run", "mode": "dispatch", "output": out[-2000:]}, "dispatch harness crashed", no_input=True)
@@ -522,7 +522,7 @@ def run(ctx):
             exprs.append("(@None (nat * sval + value))")
         else:
             exprs.append('(decode_dispatch %s "%s"%%string %s)' % (table, cs["ty"], nlist(cs["hex"])))
-    terms = c.coq_eval(ctx, "dispatch", PRE, exprs, shard=40 if q else 300)
+    terms = c.coq_eval(ctx, "dispatch", PRE, exprs, shard=30 if q else 100)
     for cs, t in zip(cases, terms):
         bump(cs["k"])
         m = opt(t)
@@ -548,7 +548,7 @@ def run(ctx):
 
     ctx.log("stage 5. token amounts")
     # ------------------------------------------------------------------ 5. token amounts: string and JSON forms
-    na = 120 if q else 4000
+    na = 80 if q else 600
     rc, out = c.run_bin(binp, ["amounts", ctx.seed, na], timeout=600)
     if rc != 0:
         ctx.violation({"layer": "harness run", "mode": "amounts", "output": out[-2000:]}, "amount harness crashed", no_input=True)
@@ -566,7 +566,7 @@ def run(ctx):
             dj = cs["decimals"]
             d = dj if isinstance(dj, int) and dj >= 0 else 999
             exprs.append("(show (from_json %s %s))" % (strs(cs["value"]), d))
-    terms = c.coq_eval(ctx, "amounts", PRE, exprs, shard=50 if q else 500)
+    terms = c.coq_eval(ctx, "amounts", PRE, exprs, shard=40 if q else 150)
 
     def am(t):
         t = opt(t)
